@@ -17,6 +17,8 @@ ASSUMPTIONS = [
 	'terminals contain no single quote (the rule-file renderer writes values inside single-quoted Python literals; the shipped grammars escape it by hand)',
 	'string terminals contain no double quote, regexp terminals no blank (the meta-grammar tokenizer splits on neither, but the generator keeps them simple)',
 ]
+# coverage-guided phase of the thorough tier (atheris/libFuzzer over the same strategy and oracle, vf/core.py _drive_atheris)
+FUZZ = {'seconds': 120, 'procs': 8, 'max_len': 4096, 'imports': ['rogw.tranp.implements.syntax.tranp.rule', 'rogw.tranp.implements.syntax.tranp.syntax', 'rogw.tranp.implements.syntax.tranp.tokenizer', 'rogw.tranp.implements.syntax.tranp.ast']}
 BUDGET = {
 	'quick': {'seconds': 35, 'grammars': 600, 'shards': 16},
 	'thorough': {'seconds': 500, 'grammars': 60000, 'shards': 16},
